@@ -12,7 +12,9 @@ connections. Oracle: every thread's results and exceptions equal those of the sa
 alone after the same prelude.
 
 Part 2 - sequential cross-session matrix: every use of an object that belongs to another thread's LIVE
-db_session must raise (TransactionError or another error), never succeed silently.
+db_session must raise (TransactionError or another error), never succeed silently - for three states of the
+using thread's own session (it has loaded objects of its own / the foreign object is its very first access /
+it has only run a query without objects).
 
 Part 3 - the same programs run free (no scheduler, 4 threads x 200 iterations): a smoke pass that only
 exists to crash loudly on unsynchronised dictionary mutation. It decides nothing.
@@ -239,6 +241,18 @@ MATRIX_OPS = ('assign-to-one', 'create-with-foreign', 'add-to-collection', 'remo
               'load-lazy-attr', 'load-collection', 'set', 'delete', 'query-parameter', 'kwargs-filter', 'get-by-foreign',
               'modify-foreign', 'flush-foreign', 'foreign-collection-add')
 
+# state of thread B's own db_session when it touches the foreign object: 'warm' = it has loaded objects of its own,
+# 'cold' = the foreign object is its very first database access (no session cache for the Database yet),
+# 'after-query' = it has only run a query that returned no object
+B_STATES = ('warm', 'cold', 'after-query')
+B_STATE_TEXT = {'cold': 'first access of its session', 'after-query': 'first object access after a query without objects'}
+
+class LazyMine(dict):
+    def __init__(self, w): dict.__init__(self); self.w = w
+    def __missing__(self, k):
+        v = self[k] = self.w.Person[1] if k == 'person' else self.w.Grp[1]
+        return v
+
 def matrix_op(w, op, mine, foreign):
     """run in thread B inside B's own db_session. mine: B's objects, foreign: objects of A's live session"""
     P, G, orm = w.Person, w.Grp, w.orm
@@ -267,20 +281,28 @@ def matrix(args):
     sub = core.Sub()
     w = W.world()
     for op in MATRIX_OPS:
-        r = matrix_case(w, op)
-        sub.count('matrix_cases')
-        sub.count('matrix_' + r[0])
-        if r[0] == 'refused':
-            sub.count('matrix_refused_with_' + r[1])
-        elif r[0] == 'silent':
-            sub.violation('cross-session|%s|succeeded' % op, dict(matrix_op=op, result=r[1]),
-                          'thread B used an object of thread A\'s live session (%s) and nothing was raised: %s' % (op, r[1]))
-        else:
-            raise core.HarnessError('C22 matrix %s: %r' % (op, r))
+        silent = {}
+        for b_state in B_STATES:
+            r = matrix_case(w, op, b_state)
+            sub.count('matrix_cases')
+            sub.count('matrix_' + r[0])
+            if r[0] == 'refused':
+                sub.count('matrix_refused_with_' + r[1])
+            elif r[0] == 'silent': silent[b_state] = r[1]
+            else:
+                raise core.HarnessError('C22 matrix %s (%s): %r' % (op, b_state, r))
+        if 'warm' in silent:
+            sub.violation('cross-session|%s|succeeded' % op, dict(matrix_op=op, b_state='warm', result=silent['warm']),
+                          'thread B used an object of thread A\'s live session (%s) and nothing was raised: %s' % (op, silent['warm']))
+        elif silent:
+            st = sorted(silent)[0]
+            sub.violation('cross-session|%s|succeeded-only-when-%s' % (op, st), dict(matrix_op=op, b_state=st, result=silent[st]),
+                          'thread B used an object of thread A\'s live session (%s) as the %s and nothing was raised (a session '
+                          'that had already loaded its own objects is refused): %s' % (op, B_STATE_TEXT[st], silent[st]))
     sub.sample(dict(matrix_ops=list(MATRIX_OPS)))
     return dict(sub=sub.dump())
 
-def matrix_case(w, op):
+def matrix_case(w, op, b_state='warm'):
     from vf.props import _c22_world as W
     W.reset(w)
     foreign, a_ready, b_done, res = {}, threading.Event(), threading.Event(), {}
@@ -306,7 +328,10 @@ def matrix_case(w, op):
             if 'a_error' in res: return
             try:
                 with w.orm.db_session:
-                    mine = dict(person=w.Person[1], grp=w.Grp[1])
+                    if b_state == 'warm': mine = dict(person=w.Person[1], grp=w.Grp[1])
+                    else:
+                        mine = LazyMine(w)        # own objects are fetched only when the operation names them
+                        if b_state == 'after-query': w.orm.select(p.id for p in w.Person if p.id < 0)[:]
                     try:
                         res['b'] = ('silent', matrix_op(w, op, mine, foreign))
                     except Exception as e:
